@@ -22,9 +22,9 @@ BLK = "src/formatters/block.rs"
 TR, EXP, BLKT = "TokenReference", "Expression", "Block"
 NODES = (
     node_specs("Do", "n_do", [("do_token", TR, "-"), ("block", BLKT, "ref"), ("end_token", TR, "-")])
-    + node_specs("While", "n_while", [("while_token", TR, "-"), ("condition", EXP, "ref"), ("do_token", TR, "-"), ("block", BLKT, "ref"), ("end_token", TR, "-")])
+    + node_specs("While", "n_while", [("while_token", TR, "ref"), ("condition", EXP, "ref"), ("do_token", TR, "-"), ("block", BLKT, "ref"), ("end_token", TR, "-")])
     + node_specs("Repeat", "n_repeat", [("repeat_token", TR, "-"), ("block", BLKT, "ref"), ("until_token", TR, "-"), ("until", EXP, "ref")])
-    + node_specs("ElseIf", "n_elseif", [("else_if_token", TR, "-"), ("condition", EXP, "ref"), ("then_token", TR, "-"), ("block", BLKT, "ref")])
+    + node_specs("ElseIf", "n_elseif", [("else_if_token", TR, "ref"), ("condition", EXP, "ref"), ("then_token", TR, "-"), ("block", BLKT, "ref")])
     + node_specs("GenericFor", "n_gfor", [("for_token", TR, "-"), ("names", "Punctuated<TokenReference>", "ref"), ("in_token", TR, "-"), ("expressions", "Punctuated<Expression>", "ref"),
                                         ("do_token", TR, "-"), ("block", BLKT, "ref"), ("end_token", TR, "-")])
     + node_specs("NumericFor", "n_nfor", [("for_token", TR, "-"), ("index_variable", TR, "ref"), ("equal_token", TR, "-"), ("start", EXP, "ref"), ("start_end_comma", TR, "-"),
@@ -102,9 +102,9 @@ def items():
 impl UpdateTrivia for TokenReference2 { }
 """) if False else Raw(""),
         Item(GEN, "enum", "EndTokenType"),
-        Fn(GEN, "format_symbol", mode="stub", proved_in="tok", contract="ensures tok_of(r) == tok_of(*wanted_symbol),", note="the printed symbol is the wanted one (proved in tok: C02.symbol_token)"),
+        Fn(GEN, "format_symbol", mode="stub", proved_in="tok", contract="ensures tok_of(r) == tok_of(*wanted_symbol), tok_open(r) ==> tok_open(*current_symbol) || tok_open(*wanted_symbol),", note="the printed symbol is the wanted one; it is followed by a line comment only if the source token (or the wanted symbol) was (proved in tok: C02.symbol_token, C01.symbol_open_only_if_source)"),
         Fn(GEN, "format_token_reference", mode="stub", proved_in="tok", contract="ensures tok_of(r) == tok_of(*token_reference),"),
-        Fn(GEN, "format_end_token", mode="stub", proved_in="tok"),
+        Fn(GEN, "format_end_token", mode="stub", proved_in="tok", contract="ensures tok_open(r) ==> tok_open(*current_token),", note="same for a block's closing keyword (tok: C01.tokref_open_only_if_source over its trailing trivia)"),
         Fn(TU, "contains_comments", mode="stub", sig_edits=[VN], contract="ensures r == has_comments(node.key()),"),
         Fn(EX, "format_expression", mode="stub", proved_in="expr", contract="requires wf(skel(*expression)), ensures erase(skel(r)) == erase(skel(*expression)),"),
         Fn(EX, "hang_expression_trailing_newline", mode="stub", proved_in="expr", contract="requires wf(skel(*expression)), ensures erase(skel(r)) == erase(skel(*expression)),"),
@@ -119,6 +119,7 @@ impl UpdateTrivia for TokenReference2 { }
     requires wf(skel(n_while_condition(while_block))),
     ensures census(&n_while_block(&r)) == census(&n_while_block(while_block)), //# C02.while_keeps_statements
             same_condition(n_while_condition(while_block), n_while_condition(&r)), //# C02.while_keeps_condition
+            !tok_open(n_while_while_token(&r)), //# C01.header_keyword_closed
 """, edits=[Hole("strip_trivia(&singleline_condition).to_string().len()", "hole_usize()", why="Display width of the condition")]),
         Fn(STM, "format_repeat_block", contract="""
     requires wf(skel(n_repeat_until(repeat_block))),
@@ -130,6 +131,7 @@ impl UpdateTrivia for TokenReference2 { }
     requires wf(skel(n_elseif_condition(else_if_node))),
     ensures census(&n_elseif_block(&r)) == census(&n_elseif_block(else_if_node)), //# C02.elseif_keeps_statements
             same_condition(n_elseif_condition(else_if_node), n_elseif_condition(&r)), //# C02.elseif_keeps_condition
+            !tok_open(n_elseif_else_if_token(&r)), //# C01.header_keyword_closed
 """, edits=[Hole("strip_trivia(&singleline_condition).to_string().len()", "hole_usize()", why="Display width of the condition"),
             Hole("should_indent_further(else_if_node.else_if_token().leading_trivia(), shape)", "should_indent_further(hole_vec_token(), shape)", why="iterator argument; chooses a comment indentation only")]),
         Fn(STM, "format_numeric_for", contract="""
@@ -178,6 +180,7 @@ impl UpdateTrivia for TokenReference2 { }
     return its
 
 LABELS = {
+    "C01.header_keyword_closed": dict(props=["C01", "C02"], text="format_while_block / format_else_if: a line comment behind the `while` / `elseif` keyword is always followed by a line break (the header goes multiline), so the condition is never printed inside the comment"),
     "C02.do_keeps_statements": dict(props=["C02"], text="format_do_block: the block of the result has the statement census of the input's block"),
     "C02.while_keeps_statements": dict(props=["C02"], text="format_while_block: same statement census in the body"),
     "C02.while_keeps_condition": dict(props=["C02"], text="format_while_block: the condition is the input's, modulo its top-level parentheses and redundant ones (single-line and hanging layout)"),
